@@ -3,7 +3,6 @@ package main
 import (
 	"fmt"
 	"math/big"
-	"os"
 
 	"github.com/aergoio/aergo/v2/types"
 
@@ -15,8 +14,9 @@ import (
 // the first blocks rank them in an order different from the genesis order (a pure permutation of the same set), the
 // chain is produced past the heights at which the elected lists take effect. The producer index of a slot is a
 // function of the elected list, so a node that lived through the elections and the same node restarted on its own
-// data (which rebuilds the list from the stored snapshots) must name the same owner for every instant. (Whether
-// the election changes the owners at all is only counted: in this rig it did not, see DESIGN.md 11.4.)
+// data (which rebuilds the list from the stored snapshots) must name the same owner for every instant. The elected
+// list of the election at height 100 takes effect at height 300: the run goes to 320 and requires that the owner of
+// at least one probed slot changed (otherwise the part is inconclusive).
 func runElection(c *vf.Ctx) {
 	w := noderig.NewWorld("elect", c.Scratch(), noderig.WorldOpts{Public: true, NAccts: 6, Mempool: "recorder", NBP: 3, Strict: true,
 		HF: map[string]uint64{"V2": 1, "V3": 1, "V4": 1 << 40, "V5": 1 << 40}})
@@ -75,27 +75,16 @@ func runElection(c *vf.Ctx) {
 	if !ok || !produce(stakes...) || !produce(votes...) {
 		return
 	}
-	for h := 3; h <= 215; h++ {
+	for h := 3; h <= 320; h++ {
 		if !produce() {
 			return
 		}
-		if os.Getenv("C09_DEBUG") != "" && (h == 99 || h == 100 || h == 101 || h == 199 || h == 200 || h == 201 || h == 215) {
-			o, _ := ownersAt(p, 1000, 6)
-			fmt.Printf("DEBUG h=%d owners(1000..)=%v\n", h, o)
-		}
 	}
-	c.Count("election_blocks_produced", 215)
-	if os.Getenv("C09_DEBUG") != "" {
-		el, _ := p.GetElected("voteBP", 3)
-		fmt.Printf("DEBUG election: perm=%v BPIDs=%v elected=%+v\n", perm, w.BPIDs, el)
-		for i := range w.BPIDs {
-			id, _ := types.IDB58Decode(w.BPIDs[i])
-			fmt.Printf("DEBUG   bp%d hex=%x\n", i, []byte(id))
-		}
-	}
+	c.Count("election_blocks_produced", 320)
 	// owners of instants far ahead, as seen by the node that lived through the elections and after a restart
 	probeFrom := slot + 50
 	lived, ok1 := ownersAt(p, probeFrom, 12)
+
 	p.Close()
 	p2, _, err := w.Node("p", func(cfg *noderig.NodeConfig) { cfg.NodeKey = 0 })
 	if err != nil {
@@ -103,6 +92,14 @@ func runElection(c *vf.Ctx) {
 		return
 	}
 	restarted, ok2 := ownersAt(p2, probeFrom, 12)
+	// did the elected list take effect at all (height 300)? judged on the restarted node, which builds its list from
+	// the stored snapshot
+	same, ok0 := ownersAt(p2, 1000, 9)
+	if !ok0 || fmt.Sprint(same) == fmt.Sprint(before) {
+		c.Inconclusive("election: the elected ranking never took effect, the part observed nothing")
+		return
+	}
+	c.Count("election_changed_the_owner_of_a_slot", 1)
 	c.Eval(2)
 	if !ok1 || !ok2 {
 		c.Inconclusive("election: owner query failed")
